@@ -379,7 +379,22 @@ def native_build(o, unit, mode, extra_defs=()):
         defs.append('-D%s=%s' % (k, v) if v is not None else '-D%s' % k)
     hp = os.path.join(VERIF, o.harness)
     common = ['-O1', '-w', '-I', ENGINE, '-I', os.path.dirname(hp), '-I', unit.dir, '-fno-strict-aliasing'] + defs
-    if mode == 'trans':
+    if mode == 'real_san':
+        # real functions + harness under UBSan/ASan: a C13 counterexample is confirmed by the sanitizer aborting the run
+        san = ['-fsanitize=undefined,address', '-fno-sanitize-recover=all', '-fno-omit-frame-pointer']
+        srcs = [unit.wrapper_path() if unit.wrapper_text is None else os.path.join(unit.dir, 'wrap_gen.cpp')] + [os.path.join(REPO, l) for l in unit.libs]
+        objs = []
+        for i, src in enumerate(srcs):
+            ob = exe + '.s%d.o' % i
+            r = sh(['g++', unit.std, '-O1', '-g', '-DNDEBUG', '-DVERIF_NATIVE', '-fno-access-control', '-w', '-ffunction-sections', '-fdata-sections'] + san + unit.incs() + unit.cflags + ['-c', src, '-o', ob])
+            if r.returncode != 0:
+                raise BuildError('sanitizer build failed on %s:\n%s' % (src, (r.stdout + r.stderr)[-2000:]))
+            objs.append(ob)
+        ho = exe + '.o'
+        r = sh(['gcc', '-std=gnu11'] + common + san + ['-DNATIVE_REAL', '-DROOTS_H="%s.roots.h"' % unit.outc, '-c', hp, '-o', ho])
+        if r.returncode == 0:
+            r = sh(['g++', ho] + objs + san + ['-Wl,--gc-sections', '-Wl,--unresolved-symbols=ignore-all', '-no-pie', '-o', exe])
+    elif mode == 'trans':
         # compiled as C, linked with the C++ driver: libstdc++ externals the generated C calls (iostream diagnostics) resolve to the real library
         r = sh(['gcc', '-std=gnu11'] + common + ['-DNATIVE_TRANS', '-DOUTC="%s"' % unit.outc, '-c', hp, '-o', exe + '.o'])
         if r.returncode == 0:
@@ -457,8 +472,17 @@ def translation_validation(o, unit, seed, extra_vectors=()):
             'sample': {'vector': vecs[0][:12], 'real_output': rb[0].strip().split('\n')[:6]}}
 
 
-def replay_native(o, unit, values, extra_defs=()):
-    exe = native_build(o, unit, 'real', extra_defs=extra_defs)
+def replay_native(o, unit, values, extra_defs=(), san=False):
+    exe = native_build(o, unit, 'real_san' if san else 'real', extra_defs=extra_defs)
+    if san:
+        inp = ' '.join(str(x) for x in values) + '\n'
+        try:
+            p = subprocess.run([exe], input=inp, capture_output=True, text=True, timeout=120, env=dict(os.environ, ASAN_OPTIONS='detect_leaks=0'))
+        except subprocess.TimeoutExpired:
+            return {'reproduced': False, 'output': 'sanitizer run timed out'}
+        rep = [l for l in (p.stderr or '').split('\n') if 'runtime error' in l or 'ERROR: AddressSanitizer' in l]
+        aborted = p.returncode not in (0, 1) or bool(rep)
+        return {'reproduced': aborted, 'output': ('; '.join(x.strip()[-200:] for x in rep[:2]) or ('exit status %s; ' % p.returncode) + (p.stderr or p.stdout).strip()[-300:])}
     r = run_native(exe, [values])
     if not r:
         return {'reproduced': False, 'output': 'native run failed'}
@@ -589,7 +613,7 @@ def run_property(pid, mod, tier, seed, update_bounds=False, only=None):
             res['known'] = []
             for k in kfs:
                 if k['vector']:
-                    rp = replay_native(o, unit, k['vector'])
+                    rp = replay_native(o, unit, k['vector'], san=(o.kind == 'c13'))
                     res['known'].append({'define': k['define'], 'text': k['text'], 'still_fails': rp['reproduced']})
             if d['verdict'] != 'DECIDED':
                 res['verdict'] = 'INCONCLUSIVE'
@@ -627,8 +651,10 @@ def run_property(pid, mod, tier, seed, update_bounds=False, only=None):
                 res['why'] = 'counterexample found but no trace could be extracted (%s)' % tr['status']
                 return res
             if o.kind == 'c13' and not any('LEMMA:' in t or 'SAFETY:' in t for _, t in fails):
-                # standard-check failures (pointer/overflow): replay under UBSan/ASan is not generally possible -> triage list
-                res['verdict'] = 'C13-REPORT'
+                # standard-check failure (overflow, shift, bounds, pointer): confirmed only if UBSan/ASan aborts the g++-built real code on the same input
+                rp = replay_native(o, unit, vals, extra_defs=extra, san=True)
+                res['replay'] = rp
+                res['verdict'] = 'VIOLATION' if rp['reproduced'] else 'C13-REPORT'
                 return res
             rp = replay_native(o, unit, vals, extra_defs=extra)
             res['replay'] = rp
@@ -677,7 +703,7 @@ def run_property(pid, mod, tier, seed, update_bounds=False, only=None):
                        'lemma': o.lemma, 'how': './check %s --replay %s' % (pid, os.path.relpath(rp, VERIF))}, open(rp, 'w'), indent=1)
             log('VIOLATION property=%s replay=%s' % (pid, rp))
             log('   lemma: %s\n   inputs: %s\n   native replay against the g++-built real code: %s' % (
-                o.lemma, r['cex_inputs'], '; '.join(l for l in r['replay']['output'].split('\n') if 'FAIL' in l or l.startswith('O '))))
+                o.lemma, r['cex_inputs'], '; '.join(l for l in r['replay']['output'].split('\n') if 'FAIL' in l or l.startswith('O ') or 'runtime error' in l or 'Sanitizer' in l or 'exit status' in l)))
             exit_code = 1
         elif r['verdict'] == 'ENCODING-MISMATCH':
             exit_code = max(exit_code, 2) if exit_code != 1 else 1
@@ -694,7 +720,7 @@ def run_property(pid, mod, tier, seed, update_bounds=False, only=None):
     if update_bounds:
         nb = dict(warm)
         for r in results:
-            if r.get('bounds') and r['verdict'] in ('HOLDS', 'VIOLATION', 'C13-REPORT'):
+            if r.get('bounds') and r['verdict'] in ('HOLDS', 'VIOLATION', 'C13-REPORT', 'HARNESS-VACUOUS', 'ENCODING-MISMATCH'):
                 nb[r['id']] = r['bounds']
         json.dump(nb, open(warm_path, 'w'), indent=1, sort_keys=True)
     wall = time.time() - t0
